@@ -1,4 +1,68 @@
-import CosetModel.Api
+/-
+  C04 — to-be-MACed bytes are exactly RFC 8152 MAC_structure.
+-/
+import CosetProofs.Structures
+import CosetModel.Builders
 namespace Coset.Props.C04
+open Coset Coset.Cbor Coset.Spec
+
+theorem contexts : MacContext.text .coseMac = ctxMAC ∧ MacContext.text .coseMac0 = ctxMAC0 := by decide
+theorem contexts_distinct : ctxMAC ≠ ctxMAC0 := by decide
+
+/-- C04 core: `[context, protected, external_aad, payload]`, deterministic encoding. -/
+theorem mac_structure (ctx : MacContext) (prot : ProtectedHeader) (aad payload b : Bytes)
+    (hb : ProtectedHeader.cborBstr prot = .ok (.bytes b)) :
+    macStructureData ctx prot aad payload = .ok (specStruct ctx.text [b, aad, payload]) :=
+  macStructure_spec ctx prot aad payload b hb
+
+/-- COSE_Mac uses "MAC", COSE_Mac0 uses "MAC0"; the payload slot is the message's payload. -/
+theorem mac_tbm (m : CoseMac) (aad b p : Bytes) (hb : ProtectedHeader.cborBstr m.protected_ = .ok (.bytes b)) (hp : m.payload = some p) :
+    m.tbm aad = .ok (specStruct ctxMAC [b, aad, p]) := by
+  simpa [CoseMac.tbm, hp, contexts.1] using mac_structure .coseMac m.protected_ aad p b hb
+
+theorem mac0_tbm (m : CoseMac0) (aad b p : Bytes) (hb : ProtectedHeader.cborBstr m.protected_ = .ok (.bytes b)) (hp : m.payload = some p) :
+    m.tbm aad = .ok (specStruct ctxMAC0 [b, aad, p]) := by
+  simpa [CoseMac0.tbm, hp, contexts.2] using mac_structure .coseMac0 m.protected_ aad p b hb
+
+/-- without a payload, creating or verifying a tag is refused (documented panic), never MACs something else. -/
+theorem needs_payload {ρ : Type} (m : CoseMac) (m0 : CoseMac0) (aad : Bytes) (g : Bytes → Bytes → ρ) (f : Bytes → Bytes) (ft : Bytes → Except Nat Bytes)
+    (h : m.payload = none) (h0 : m0.payload = none) :
+    m.verifyTag aad g = .panic .unwrapNone ∧ m0.verifyTag aad g = .panic .unwrapNone ∧
+    (∃ s, MacOp.apply m (.createTag aad f) = .panic s) ∧ (∃ s, MacOp.apply m (.tryCreateTag aad ft) = .panic s) ∧
+    (∃ s, Mac0Op.apply m0 (.createTag aad f) = .panic s) ∧ (∃ s, Mac0Op.apply m0 (.tryCreateTag aad ft) = .panic s) := by
+  simp [CoseMac.verifyTag, CoseMac0.verifyTag, CoseMac.tbm, CoseMac0.tbm, h, h0, MacOp.apply, Mac0Op.apply, Step.ofRes]
+
+/-- verification and creation hand exactly these bytes to the caller's function. -/
+theorem verify_passes {ρ : Type} (m : CoseMac) (aad : Bytes) (g : Bytes → Bytes → ρ) (t : Bytes) (ht : m.tbm aad = .ok t) :
+    m.verifyTag aad g = .ok (g m.tag t) := by simp [CoseMac.verifyTag, ht]
+theorem verify_passes0 {ρ : Type} (m : CoseMac0) (aad : Bytes) (g : Bytes → Bytes → ρ) (t : Bytes) (ht : m.tbm aad = .ok t) :
+    m.verifyTag aad g = .ok (g m.tag t) := by simp [CoseMac0.verifyTag, ht]
+
+theorem create_passes (m : CoseMac) (aad : Bytes) (f : Bytes → Bytes) (t : Bytes) (ht : m.tbm aad = .ok t) :
+    MacOp.apply m (.createTag aad f) = .next { m with tag := f t } := by simp [MacOp.apply, ht, Step.ofRes]
+theorem create_passes0 (m : CoseMac0) (aad : Bytes) (f : Bytes → Bytes) (t : Bytes) (ht : m.tbm aad = .ok t) :
+    Mac0Op.apply m (.createTag aad f) = .next { m with tag := f t } := by simp [Mac0Op.apply, ht, Step.ofRes]
+
+theorem injective (c1 c2 : MacContext) (xs1 xs2 : List Bytes)
+    (hx1 : xs1.length + 1 < 2 ^ 64 ∧ ∀ x ∈ xs1, x.length < 2 ^ 64) (hx2 : xs2.length + 1 < 2 ^ 64 ∧ ∀ x ∈ xs2, x.length < 2 ^ 64)
+    (h : specStruct c1.text xs1 = specStruct c2.text xs2) : c1 = c2 ∧ xs1 = xs2 := by
+  have v : ∀ c : MacContext, Utf8.valid c.text = true ∧ c.text.length < 2 ^ 64 := by intro c; cases c <;> decide
+  obtain ⟨hc, hx⟩ := specStruct_injective _ _ _ _ (v c1) (v c2) hx1 hx2 h
+  refine ⟨?_, hx⟩
+  cases c1 <;> cases c2 <;> first | rfl | (exact absurd hc (by decide))
+
+example : macStructureData .coseMac0 (.mk (some []) Header.default) [] [0x61] = .ok [0x84, 0x64, 77, 65, 67, 48, 0x40, 0x40, 0x41, 0x61] := by decide
+
+#print axioms contexts
+#print axioms contexts_distinct
+#print axioms mac_structure
+#print axioms mac_tbm
+#print axioms mac0_tbm
+#print axioms needs_payload
+#print axioms verify_passes
+#print axioms verify_passes0
+#print axioms create_passes
+#print axioms create_passes0
+#print axioms injective
 
 end Coset.Props.C04
